@@ -109,6 +109,10 @@ def check(tier='quick', seed=0):
     cases += r.pop('cases')
     if r['reproduced']:
         return dict(r, cases=cases)
+    r = updated_model(survey, model, grids, [1, 2] if tier == 'quick' else [1, 2, 3])
+    cases += r.pop('cases')
+    if r['reproduced']:
+        return dict(r, cases=cases)
     return dict(reproduced=False, cases=cases)
 
 
@@ -150,4 +154,49 @@ def reused_directory(survey, model, grids, ref, worker_counts):
                             directory_held_before=left,
                             how='contracts.c11_concrete.reused_directory: Simulation(earlier model, file_dir=d).compute(); .gradient; then the run of the '
                                 'current model with file_dir=d; reference: max_workers=1 in memory')
+    return dict(reproduced=False, cases=cases)
+
+
+def updated_model(survey, model, grids, worker_counts):
+    """the same Simulation computed, its model edited IN PLACE (an accepted workflow: update, clean('computed'), compute again), computed again:
+    for every execution setting the second results are those of a brand-new sequential simulation of the updated model -- what a task derives
+    from the model (the model interpolated to its computational grid) belongs to the model as it is when the task is made"""
+    import emg3d
+    cases = 0
+    new_values = np.asarray(model.property_x)[::-1, ::-1, :] * 1.7
+    fresh = emg3d.Model(model.grid, new_values.copy())
+    ref = run(survey, fresh, grids, 1)
+    mgrid4 = emg3d.TensorMesh([np.ones(4) * 80.0] * 3, origin=(-160, -160, -320))
+    simr = emg3d.Simulation(survey.copy(), fresh, gridding='input', gridding_opts=mgrid4, max_workers=1, receiver_interpolation='linear',
+                            solver_opts=dict(tol=1e-5, tol_gradient=1e-3, maxit=20, verb=0), tqdm_opts=dict(disable=True), verb=-1)
+    simr.compute()
+    refs_input = (np.asarray(simr.data.synthetic.data).copy(), None, float(simr.misfit), np.asarray(simr.gradient).copy())
+    for workers, gridding in [(w, g) for w in worker_counts for g in ('dict', 'input')]:
+        cases += 1
+        m = emg3d.Model(model.grid, np.asarray(model.property_x).copy())
+        if gridding == 'input':       # one computational grid for all pairs, different from the model grid
+            gopts = mgrid4
+            refs = refs_input
+        else:
+            gopts = grids
+            refs = ref
+        sim = emg3d.Simulation(survey.copy(), m, gridding=gridding, gridding_opts=gopts, max_workers=workers, receiver_interpolation='linear',
+                               solver_opts=dict(tol=1e-5, tol_gradient=1e-3, maxit=20, verb=0), tqdm_opts=dict(disable=True), verb=-1)
+        try:
+            sim.compute()
+            _ = sim.gradient
+            sim.model.property_x[...] = new_values
+            sim.clean('computed')
+            sim.compute()
+            syn = np.asarray(sim.data.synthetic.data).copy()
+            mf = float(sim.misfit)
+            g = np.asarray(sim.gradient).copy()
+        except Exception as e:
+            return dict(reproduced=True, cases=cases, clause='computation after an in-place model update raised', max_workers=workers, exception=f'{type(e).__name__}: {e}')
+        for nm, a, b in (('synthetic data', refs[0], syn), ('misfit', refs[2], mf), ('gradient', refs[3], g)):
+            if np.shape(a) != np.shape(b) or not np.array_equal(a, b, equal_nan=True):
+                return dict(reproduced=True, cases=cases, max_workers=workers, gridding=gridding,
+                            clause=f'{nm} after an in-place model update and clean differ from a brand-new sequential simulation of the updated model',
+                            max_abs_deviation=float(np.nanmax(np.abs(np.asarray(a) - np.asarray(b)))) if np.shape(a) == np.shape(b) else None,
+                            how='contracts.c11_concrete.updated_model: compute, gradient, sim.model.property_x[...] = new values, clean(computed), compute, misfit, gradient')
     return dict(reproduced=False, cases=cases)
